@@ -127,6 +127,41 @@ theorem session_stays_protected (op : SessionOp) (w : WorldT) (h : w.ctlTls = tr
   · have : (afterT op.run w).ctlTls = w.ctlTls := congrArg (fun k => k.2.2) hc
     rw [this, h]
 
+private theorem op_broken (op : SessionOp) : L.AllB op.run := by
+  cases op with
+  | login u p => exact L.allB_discard (L.loginT_b u p)
+  | simple v a => exact L.allB_discard (L.allB_lift _)
+  | download p => exact L.allB_discard (L.downloadT_b p)
+  | upload v p => exact L.allB_discard (L.uploadT_b v p)
+  | list p n => exact L.allB_discard (L.fileListT_b p n)
+
+/-- when the TLS handshake of the control connection failed (`connect` threw: the socket has its SSL layer,
+    `ctlSsl = true`, but no session, `ctlTls = false`) nothing is sent any more: whatever the call, whatever the
+    server would answer and whatever the oracles, no command line is written - neither in clear text nor inside TLS.
+    (The call stops at its first command write, after the observers were told about the request, and throws.) -/
+theorem broken_session_sends_nothing (op : SessionOp) (w : WorldT) (hs : w.ctlSsl = true) (ht : w.ctlTls = false) :
+    allWrites (addedT op.run w) = [] := by
+  rw [allWrites_eq]
+  exact ((op_broken op) w ⟨hs, ht⟩).added.2
+
+/-- ... and the session stays in that state: the next call sends nothing either -/
+theorem broken_session_stays_broken (op : SessionOp) (w : WorldT) (hs : w.ctlSsl = true) (ht : w.ctlTls = false) :
+    (afterT op.run w).ctlSsl = true ∧ (afterT op.run w).ctlTls = false :=
+  ((op_broken op) w ⟨hs, ht⟩).added.1
+
+/-- the graceful disconnect of such a session does not send QUIT (nor anything else) -/
+theorem broken_session_quit_not_sent (w : WorldT) (hs : w.ctlSsl = true) (ht : w.ctlTls = false) :
+    allWrites (addedT (disconnectT true) w) = [] := by
+  rw [allWrites_eq]
+  exact (L.disconnectT_nw true w ⟨hs, ht⟩).added
+
+/-- ... it throws at the write of QUIT, as `client::disconnect` does when `process_command` throws: the connection
+    is not closed and the SSL layer stays in place (`disconnectT false` is the way out) -/
+theorem broken_session_quit_throws (w : WorldT) (hs : w.ctlSsl = true) (ht : w.ctlTls = false) :
+    resultT (disconnectT true) w = .throw ∧
+      (afterT (disconnectT true) w).ctlSsl = true ∧ (afterT (disconnectT true) w).ctlTls = false :=
+  L.disconnectT_broken w ⟨hs, ht⟩
+
 /-- the data connection's handshake takes place before the first payload byte moves: no payload event precedes it, and
     with a TLS context no payload event happens in a call that has no successful data handshake -/
 theorem data_handshake_before_payload (op : SessionOp) (w : WorldT) (h : w.tlsCtx = true) :
